@@ -312,6 +312,87 @@ def rnd7(p, res, eng, kernels):
             res.bad("RND-7", f.pretty, "anchor-lost:noise-site", "no noise site found in kernel")
 
 
+WHOLE_IT = ("iter_mut", "chunks_mut", "fill", "copy_from_slice", "clone_from_slice")
+PART_IT = ("chunks_exact_mut", "chunks_exact", "as_chunks_mut", "rchunks_exact_mut", "array_chunks_mut")
+DROP_IT = ("skip", "take", "step_by", "skip_while", "take_while", "filter", "zip")
+
+
+def rnd10(p, res):
+    """sampling kernels over a coefficient slice (`fn(.., res: &mut [i64], .., source: &mut Source)`): every returning path hands the whole slice to a traversal that visits
+    each element - `iter_mut` not narrowed by skip / take / step_by / zip, or a fixed-width chunk traversal whose remainder is consumed as well.  A path that ends after a
+    fixed-width traversal alone leaves the last `len % width` coefficients of the mask (or of the error) at whatever the buffer held."""
+    from . import sc
+    n = 0
+    for f in sorted(p.lib_fns(), key=lambda x: x.uid):
+        if f.kind == "Closure" or f.is_test() or not f.uid.startswith(("poulpy_cpu_ref::reference", "poulpy_cpu_avx")):
+            continue
+        pn = f.param_names()
+        tys = {l: f.local_ty(l)["s"] for l in pn}
+        dst = [l for l in pn if tys[l] == "&mut [i64]"]
+        if len(dst) != 1 or not any(t.endswith("source::Source") for t in tys.values()):
+            continue
+        n += 1
+        g = CFG(f)
+        paths = sc.returning_paths(f, g, cap=128)
+        if not paths:
+            res.undec("RND-10", "%s: paths not enumerable" % f.pretty)
+            continue
+        flow = Flow(f)
+
+        def kind_of(bi):
+            """whole | part:<width> | narrowed | None for the call at block bi when its receiver is the destination slice"""
+            t = f.blocks[bi]["t"]
+            nm = (f.callee_def(t) or {}).get("n", "")
+            if not t["a"] or nm not in WHOLE_IT + PART_IT:
+                return None
+            if not any(r[0] == "param" and r[1] == dst[0] and not r[2] for r in flow.op_roots(t["a"][0])):
+                return None
+            if nm in WHOLE_IT:
+                return "whole"
+            w = t["a"][1] if len(t["a"]) > 1 else None
+            if w is not None and w[0] == "k" and w[1].get("v") == 1:
+                return "whole"
+            return "part"
+
+        def narrowed(bi):
+            """the traversal started at bi flows through an adaptor that drops elements"""
+            for bj, t in f.calls():
+                if (f.callee_def(t) or {}).get("n") in DROP_IT and t["a"] and any(r == ("call", bi, ()) for r in flow.op_roots(t["a"][0])):
+                    return (f.callee_def(t) or {}).get("n")
+            return None
+
+        bad = None
+        for path in paths:
+            whole = part = rem = False
+            why = "returns without traversing `%s`" % pn[dst[0]]
+            for b in path:
+                t = f.blocks[b]["t"]
+                if not t or t["k"] != "Call":
+                    continue
+                nm = (f.callee_def(t) or {}).get("n", "")
+                if nm in ("into_remainder", "remainder"):
+                    rem = True
+                k = kind_of(b)
+                if k == "whole":
+                    d = narrowed(b)
+                    if d:
+                        why = "traverses `%s` through `%s`, which drops elements" % (pn[dst[0]], d)
+                    else:
+                        whole = True
+                elif k == "part":
+                    part = True
+                    why = "traverses `%s` in fixed-width chunks and never touches the remainder" % pn[dst[0]]
+            if not (whole or (part and rem)):
+                bad = why
+                break
+        if bad:
+            res.bad("RND-10", f.pretty, "slice-not-covered", "%s %s on a returning path: the coefficients left out keep the previous content of the buffer instead of a fresh sample" % (f.pretty, bad), site=f.where())
+        else:
+            res.ok("RND-10", {"kernel": f.pretty, "paths": len(paths)})
+    return n
+
+
+
 def rnd8(p, res):
     """fixed-Hamming-weight samplers (`fill_*_hw`): the first `hw` slots are set before the shuffle and must all be non-zero, otherwise the weight of the secret / of the
     public-key ephemeral is a random variable (a binary sampler that stores `next_u32() & 1` has weight Binomial(hw, 1/2), weight 0 with probability 2^-hw)"""
@@ -446,6 +527,7 @@ def run(res, tier):
     res.rule("RND-6", "in every noise kernel the radix handed to the noise sink, the mask sink and the result normalisation is one and the same value")
     res.rule("RND-7", "after the noise sink has added the error to a buffer, nothing plainly overwrites that buffer (store that is not read-modify-write, zero/fill/copy, overwrite-type HAL op, including inside later closures) before it is consumed")
     res.rule("RND-8", "fixed-Hamming-weight samplers set each of their hw slots to a value that is non-zero for every value of the random bit")
+    res.rule("RND-10", "sampling kernels over a coefficient slice traverse the whole slice on every returning path (no narrowed iterator, fixed-width chunks only with their remainder)")
     res.rule("RND-9", "sigma and truncation bound of every Gaussian sampling site carry the same scale factor")
     res.rule("RND-5", "HashMap iteration flows into an order-insensitive consumer or is sorted before use")
     res.assumptions = ["noise/mask sink implementations (sampling kernels) are as documented (C01/C10 territory)", "do-while abstraction: an encryption over zero rows/columns writes no cell"]
@@ -462,6 +544,8 @@ def run(res, tier):
         res.floor("RND-9", "Gaussian sampling sites (sigma, bound)", n9, 4)
         n8 = rnd8(p, res)
         res.floor("RND-8", "fixed-weight samplers", n8, 2)
+        n10 = rnd10(p, res)
+        res.floor("RND-10", "slice sampling kernels", n10, 4)
 
         # ---------------- RND-1
         n1 = 0
